@@ -493,6 +493,7 @@ def fs_put(ctx, a, seam):
     doc = _fresh(ctx, a["doc"])
     data = json.dumps(doc, ensure_ascii=a.get("ascii", False), indent=a.get("indent")).encode("utf-8")
     ctx.disk.files[a["path"]] = bytearray(data)
+    ctx.disk.touch(a["path"])
     ctx.disk.state[a["path"]] = ("ack", ctx.disk.step)
     return len(data)
 
